@@ -12,6 +12,11 @@ Proved here:
 * `returns_empty` — an accepted database is returned empty whatever the statements do and wherever
   one fails; `runs_returns_empty` — the same for a command that uses the dev database several times;
 * `accepted_iff_empty` — a database is accepted only if it is empty (so nothing can be lost);
+* `dev_db_unchanged_by_any_command` — for every content of the dev database, every number of uses and
+  every failing position, the content after the command equals the content before (false of the
+  pinned cleanliness test: the example beside it);
+* `success_iff_no_failing_statement`, `refused_not_ok` — a use reports success exactly when no
+  statement failed, and a refusal is never a success;
 * `all_sites_deferred`, `no_exec_before_snapshot`, `sites_known` — every `Snapshot` call in the
   source checks the error and defers the restore in the very next statement, nothing executes SQL
   before it, and the set of dev-database users is the expected one (a new user must be added here).
@@ -96,5 +101,45 @@ theorem sites_known : Gen.C14.sites.map (fun s => (s.file, s.func)) =
 
 example : (run true [] [some .table, some .view, none, some .index]) = { refused := false, ok := false, db := [] } := by decide
 example : (run true [.table, .index] [some .table]) = { refused := true, ok := false, db := [.table, .index] } := by decide
+
+/-- **dev_db_unchanged_by_any_command**: whatever the dev database holds, however often the command
+uses it and wherever a statement fails, its content after the command equals its content before. -/
+theorem dev_db_unchanged_by_any_command (db : DevDb) (uses : List (List (Option Kind))) :
+    (runs true db uses).db = db := by
+  cases uses with
+  | nil => rfl
+  | cons s rest =>
+    cases db with
+    | nil => exact (runs_returns_empty (s :: rest)).1
+    | cons k ks => exact (runs_refuse_nonempty (k :: ks) s rest (by simp)).2
+
+theorem execStmts_ok : ∀ (stmts : List (Option Kind)) (db : DevDb),
+    (execStmts db stmts).2 = true ↔ none ∉ stmts := by
+  intro stmts
+  induction stmts with
+  | nil => intro db; simp [execStmts]
+  | cons a as ih =>
+    intro db
+    cases a with
+    | none => simp [execStmts]
+    | some k => simp [execStmts, ih]
+
+/-- **success_iff_no_failing_statement**: a use of an empty dev database reports success exactly when no statement failed. -/
+theorem success_iff_no_failing_statement (stmts : List (Option Kind)) :
+    (run true [] stmts).ok = true ↔ none ∉ stmts := by
+  have : (run true [] stmts).ok = (execStmts [] stmts).2 := by simp [run, clean]
+  rw [this]
+  exact execStmts_ok stmts []
+
+/-- a refused database is never reported as a success. -/
+theorem refused_not_ok (fixed : Bool) (db : DevDb) (stmts : List (Option Kind))
+    (h : (run fixed db stmts).refused = true) : (run fixed db stmts).ok = false := by
+  unfold run at h ⊢
+  split
+  · rename_i hc; simp [hc] at h
+  · rfl
+
+example : (runs true [.view, .table] [[some .table], [none]]).db = [.view, .table] := by decide
+example : (runs false [.view] [[some .table]]).db ≠ [.view] := by decide
 
 end Props.C14
